@@ -38,11 +38,23 @@ type Op struct {
 	B QS     `json:"b,omitempty"`
 	W int    `json:"w,omitempty"` // variant: setter index, resolve way, getter mask, ...
 	F string `json:"f,omitempty"` // fault kind this op represents, if any (abort/observe/stale-handle/hostile-bytes)
+	// V: value source for "set". "" = the literal A. "own" = the target's current getter for the
+	// component being set (the setter is handed its own current value). "peer" = the same getter of
+	// URL handle S. The value is resolved at execution time (a pure function of plan and code) and
+	// recorded in the event; A is then a suffix appended to it (usually empty).
+	V string `json:"v,omitempty"`
+	S int    `json:"s,omitempty"`
 }
 
 func (o Op) String() string {
 	switch o.K {
 	case "set":
+		switch o.V {
+		case "own":
+			return fmt.Sprintf("p%d u%d.Set%s(<its own current value>+%q)", o.P, o.H, setterNames[o.W%len(setterNames)], string(o.A))
+		case "peer":
+			return fmt.Sprintf("p%d u%d.Set%s(<current value of u%d>+%q)", o.P, o.H, setterNames[o.W%len(setterNames)], o.S, string(o.A))
+		}
 		return fmt.Sprintf("p%d u%d.Set%s(%q)", o.P, o.H, setterNames[o.W%len(setterNames)], string(o.A))
 	case "parse":
 		if o.W == 0 {
